@@ -430,7 +430,43 @@ func runC18(p *eng.Prog, r *eng.Report, tier string) {
 				// a join that was never confirmed, by a channel that was not
 				// registered before it asked: the registration this call made is
 				// taken back (F141); only while the entry is still this channel
-				c.dom("C18.7", f, mu.Node, "registration of an unconfirmed join taken back", []string{"!*joined*", "!*wasManaged*", "eq(*,*.client.managed[*])"})
+				c.dom("C18.7", f, mu.Node, "registration of an unconfirmed join taken back", []string{"eq(*,*.client.managed[*])"})
+				// ... and behind two flags of the enclosing JoinPresence, whatever
+				// they are called: one that is set to true only where the room's
+				// self-presence arrived, one that was defined as "the entry was
+				// this channel already" before the registration
+				okJoined, okWas := false, false
+				if pt, ok := f.Graph().Where(mu.Node); ok {
+					jp := c.fn("C18.7", "muc", "(*Channel).JoinPresence")
+					for _, a := range f.Graph().FactsAt(pt) {
+						if !strings.HasPrefix(a, "!local:") || !strings.HasSuffix(a, "<bool>") || jp == nil {
+							continue
+						}
+						name := strings.TrimSuffix(strings.TrimPrefix(a, "!local:"), "<bool>")
+						for _, w := range jp.Writes() {
+							idn, ok := ast.Unparen(w.LHS).(*ast.Ident)
+							if !ok || idn.Name != name || w.RHS == nil {
+								continue
+							}
+							if jp.Norm(w.RHS, nil) == "true" {
+								wp, _ := jp.Graph().Where(w.Stmt)
+								for _, fa := range jp.Graph().FactsAt(wp) {
+									if strings.HasPrefix(fa, "selectarm(recv local:") && strings.Contains(fa, "chan") && strings.Contains(fa, "jid.JID") {
+										okJoined = true
+									}
+								}
+							}
+							if be, ok := ast.Unparen(w.RHS).(*ast.BinaryExpr); ok && be.Op == token.EQL {
+								if ix, ok := ast.Unparen(be.X).(*ast.IndexExpr); ok {
+									if k, _ := jp.FieldClass(ix.X); k == "muc.Client.managed" && jp.Norm(be.Y, nil) == "recv" {
+										okWas = true
+									}
+								}
+							}
+						}
+					}
+				}
+				c.r.Check("C18.7", f, "take-back only for an unconfirmed first registration", "G: the removal is behind the flag set on the room's self-presence and the flag 'was registered before this call'", mu.Node.Pos(), okJoined && okWas, "the removal is not guarded by both flags: a confirmed join, or a channel that was a member before a failed rejoin, loses its registration")
 				n141++
 				continue
 			}
